@@ -161,6 +161,8 @@ def main(argv):
         sys.stderr.write(traceback.format_exc())
         return 2
     ctx = Ctx(prop, a.tier, seed, jobs)
+    from . import modstate
+    modstate.baseline()                 # the library's shared constants as they are right after import
 
     if a.replay:
         return do_replay(mod, prop, a.replay)
@@ -243,7 +245,14 @@ def do_replay(mod, prop, path):
         body = json.load(fh)
     st = Stats()
     try:
-        mod.replay(body['case'], st)
+        if isinstance(body['case'], dict) and body['case'].get('kind') == 'library-constant':
+            from .explore import replay_constant
+            replay_constant(body['case'], st)
+        else:
+            from . import modstate
+            modstate.baseline()
+            mod.replay(body['case'], st)
+            modstate.report_constants(st, body['case'], 'replay')
     except HarnessError as e:
         sys.stderr.write('HARNESS ERROR replaying %s: %s\n' % (path, e))
         return 2
